@@ -19,6 +19,9 @@ import ast
 from typing import Iterable, Optional, Union
 
 SAME, LEAF, OTHER = "same", "leaf", "other"
+_GLOBALS = ("np", "numpy", "math", "self", "cls", "len", "range", "zip", "enumerate", "list", "dict", "set", "tuple", "int",
+            "float", "str", "bool", "min", "max", "abs", "sum", "sorted", "reversed", "isinstance", "any", "all", "map",
+            "True", "False", "None", "super", "ValueError", "TypeError", "IndexError", "KeyError", "warnings", "itertools")
 
 
 def _parse(src: str) -> ast.AST:
@@ -136,6 +139,13 @@ def _diff(a, b, names: dict, rnames: dict, out: list, in_msg=False) -> bool:
         nm = f.attr if isinstance(f, ast.Attribute) else (f.id if isinstance(f, ast.Name) else "")
         if nm in _IGNORED_STR_CALLS:
             msg = True
+    if isinstance(a, ast.Call) and not a.keywords and not b.keywords and {len(a.args), len(b.args)} == {0, 1}:
+        # `s.pop()` vs `s.pop(0)`: one literal argument more or less is a leaf, not another shape
+        extra = (a.args or b.args)[0]
+        if isinstance(extra, ast.Constant) and _diff(a.func, b.func, names, rnames, out, msg):
+            out.append(("argument", ast.unparse(a), ast.unparse(b)))
+            return True
+        return False
     for (fa, va), (fb, vb) in zip(ast.iter_fields(a), ast.iter_fields(b)):
         if fa in ("ctx", "type_comment", "lineno", "col_offset", "end_lineno", "end_col_offset", "kind", "returns", "decorator_list", "annotation"):
             continue
@@ -176,9 +186,7 @@ def compare(actual: Union[ast.AST, str, None], expected: Union[ast.AST, str], fi
     out: list = []
     names = {n: n for n in fixed_names}
     rnames = {n: n for n in fixed_names}
-    for g in ("np", "numpy", "math", "self", "cls", "len", "range", "zip", "enumerate", "list", "dict", "set", "tuple", "int",
-              "float", "str", "bool", "min", "max", "abs", "sum", "sorted", "reversed", "isinstance", "any", "all", "map",
-              "True", "False", "None", "super", "ValueError", "TypeError", "IndexError", "KeyError"):
+    for g in _GLOBALS:
         names.setdefault(g, g)
         rnames.setdefault(g, g)
     if not _diff(a, b, names, rnames, out):
@@ -219,6 +227,54 @@ def find(stmts: Iterable[ast.AST], accepted: Iterable[Union[str, ast.AST]], fixe
     if cand is not None:
         return LEAF, cand[0], cand[1]
     return OTHER, None, []
+
+
+def find_group(stmts: Iterable[ast.AST], expected: list, fixed_names: Iterable[str] = ()):
+    """Match several expected statements against the statements of one def under ONE renaming of
+    the local names (so `params[child] = cur` is not satisfied by `params[child] = pre` when
+    `cur`/`pre` are pinned by the other statements).  Each expected entry is a source string or a
+    list of alternative spellings.  -> [(SAME|LEAF|OTHER, node|None, diffs)] in the order given."""
+    nodes = [n for s in stmts for n in ast.walk(s) if isinstance(n, (ast.stmt, ast.expr))]
+    names = {n: n for n in fixed_names}
+    rnames = {n: n for n in fixed_names}
+    for g in _GLOBALS:
+        names.setdefault(g, g)
+        rnames.setdefault(g, g)
+    results = [None] * len(expected)
+    alts = [[canon(_parse(x)) for x in ([e] if isinstance(e, str) else e)] for e in expected]
+    alts = [[(x.value if isinstance(x, ast.Expr) else x) for x in a] for a in alts]
+    # first pass: exact matches fix the renaming; statements with the most names first
+    order = sorted(range(len(expected)), key=lambda i: -max(leaves(x) for x in alts[i]))
+    canon_nodes = [(n, canon(n)) for n in nodes]
+    for i in order:
+        for n, cn in canon_nodes:
+            hit = False
+            for b in alts[i]:
+                nm, rn, out = dict(names), dict(rnames), []
+                a = cn.value if isinstance(cn, ast.Expr) else cn
+                if _diff(a, b, nm, rn, out) and not out:
+                    names, rnames = nm, rn
+                    results[i] = (SAME, n, [])
+                    hit = True
+                    break
+            if hit:
+                break
+    # second pass: the rest, under the renaming found
+    for i in range(len(expected)):
+        if results[i] is not None:
+            continue
+        cand = None
+        for n, cn in canon_nodes:
+            if not isinstance(n, ast.stmt) and not isinstance(alts[i][0], ast.expr):
+                continue
+            for b in alts[i]:
+                nm, rn, out = dict(names), dict(rnames), []
+                a = cn.value if isinstance(cn, ast.Expr) else cn
+                if _diff(a, b, nm, rn, out) and out and len(out) <= 2 and len(out) * 3 <= leaves(n):
+                    if cand is None or len(out) < len(cand[1]):
+                        cand = (n, out)
+        results[i] = (LEAF, cand[0], cand[1]) if cand is not None else (OTHER, None, [])
+    return results
 
 
 def leaves(n: ast.AST) -> int:
